@@ -25,6 +25,7 @@ PROPS = ['C01']
 R = 'duke/src/class_reader.rs'
 V = 'duke/src/visitor/'
 T = 'duke/src/tree/'
+LIB = 'duke/src/lib.rs'
 
 STUBS = r'''
 // TRUSTED: pool accessors / conversions / annotation parsers / read_module are opaque functions of their arguments here
@@ -32,6 +33,9 @@ pub uninterp spec fn sp_utf8(pool: PoolRead, i: u16) -> JavaString;
 pub uninterp spec fn sp_class(pool: PoolRead, i: u16) -> ClassName;
 pub uninterp spec fn sp_method_nat(pool: PoolRead, i: u16) -> MethodNameAndDesc;
 pub uninterp spec fn sp_constant_value(pool: PoolRead, i: u16) -> ConstantValue;
+pub uninterp spec fn sp_package(pool: PoolRead, i: u16) -> PackageName;
+pub open spec fn sp_class_opt(pool: PoolRead, i: u16) -> Option<ClassName> { Some(sp_class(pool, i)) }
+pub open spec fn sp_package_opt(pool: PoolRead, i: u16) -> Option<PackageName> { Some(sp_package(pool, i)) }
 pub uninterp spec fn sp_class_sig(s: JavaString) -> ClassSignature;
 pub uninterp spec fn sp_field_sig(s: JavaString) -> FieldSignature;
 pub uninterp spec fn sp_method_sig(s: JavaString) -> MethodSignature;
@@ -39,6 +43,7 @@ pub uninterp spec fn sp_string_of(b: Seq<u8>) -> JavaString;
 impl PoolRead {
     #[verifier::external_body] pub fn get_utf8(&self, index: u16) -> (res: Result<JavaString, VErr>) ensures res matches Ok(v) ==> v == sp_utf8(*self, index) { unimplemented!() }
     #[verifier::external_body] pub fn get_class(&self, index: u16) -> (res: Result<ClassName, VErr>) ensures res matches Ok(v) ==> v == sp_class(*self, index) { unimplemented!() }
+    #[verifier::external_body] pub fn get_package(&self, index: u16) -> (res: Result<PackageName, VErr>) ensures res matches Ok(v) ==> v == sp_package(*self, index) { unimplemented!() }
     #[verifier::external_body] pub fn get_constant_value(&self, index: u16) -> (res: Result<ConstantValue, VErr>) ensures res matches Ok(v) ==> v == sp_constant_value(*self, index) { unimplemented!() }
     // `pool.get_optional(i, PoolRead::get_method_name_and_type)`: index 0 means "no entry"
     #[verifier::external_body] pub fn get_optional_method_name_and_type(&self, index: u16) -> (res: Result<Option<MethodNameAndDesc>, VErr>)
@@ -84,6 +89,15 @@ VALUE = {
 ANNOT = {'RUNTIME_VISIBLE_ANNOTATIONS': ('Annotations', 'true', 'sp_annotations(d, p, *pool)'), 'RUNTIME_INVISIBLE_ANNOTATIONS': ('Annotations', 'false', 'sp_annotations(d, p, *pool)'),
          'RUNTIME_VISIBLE_TYPE_ANNOTATIONS': ('TypeAnnotations', 'true', 'sp_type_annotations::<{tgt}>(d, p, *pool)'),
          'RUNTIME_INVISIBLE_TYPE_ANNOTATIONS': ('TypeAnnotations', 'false', 'sp_type_annotations::<{tgt}>(d, p, *pool)')}
+# arms whose body is `let v = reader.read_vec(|r| SIZE, |r| ELEMENT)?; visitor.visit_x(v)?;`: the call is beta-reduced with the real body of ClassRead::read_vec
+# (duke/src/lib.rs): `get_size(self)` / `get_element(self)` replaced by the closure bodies with `r` bound to the reader.  (level, attribute) -> (event, width of the count,
+# bytes per element, element k of the vector v as a function of the bytes at q = p + count width + k * element size)
+VEC = {
+    ('klass', 'NEST_MEMBERS'): ('ClEv::NestMembers', 2, 2, 'sp_class_opt(*pool, u16_at(d, q) as u16) == Some(v[k])'),
+    ('klass', 'PERMITTED_SUBCLASSES'): ('ClEv::PermittedSubclasses', 2, 2, 'sp_class_opt(*pool, u16_at(d, q) as u16) == Some(v[k])'),
+    ('klass', 'MODULE_PACKAGES'): ('ClEv::ModulePackages', 2, 2, 'sp_package_opt(*pool, u16_at(d, q) as u16) == Some(v[k])'),
+    ('method', 'EXCEPTIONS'): ('MEv::Exceptions', 2, 2, 'sp_class_opt(*pool, u16_at(d, q) as u16) == Some(v[k])'),
+}
 FN_OF = dict(klass='read', field='read_field', method='read_method', component='read_record_component')
 VAR_OF = dict(klass='class_visitor', field='field_visitor', method='method_visitor', component='record_component_visitor')
 
@@ -123,6 +137,41 @@ def arms_of(u, fname):
         out.append((mg.group(1) if mg else '_', '!interests' in guard, body[bs:be], s.line_of(f['open'] + bs)))
         i = k + 1
     return out
+
+
+def beta_read_vec(u, body):
+    """`reader.read_vec(|r| SIZE, |r| ELEM)` -> the body of ClassRead::read_vec (cut from duke/src/lib.rs) with get_size(self) / get_element(self) replaced by the closure bodies"""
+    mask = code_mask(body)
+    m = re.search(r'reader\.read_vec\(', mask)
+    if not m:
+        raise CutError('arm has no reader.read_vec(..) call any more')
+    op = m.end() - 1
+    cl = match_close(mask, op)
+    args, depth, cur = [], 0, ''
+    for ch, mc in zip(body[op + 1:cl], mask[op + 1:cl]):
+        if mc in '([{':
+            depth += 1
+        elif mc in ')]}':
+            depth -= 1
+        if mc == ',' and depth == 0:
+            args.append(cur)
+            cur = ''
+        else:
+            cur += ch
+    if cur.strip():
+        args.append(cur)
+    if len(args) != 2 or not all(re.match(r'\s*\|r\|', a) for a in args):
+        raise CutError('read_vec call does not have the shape read_vec(|r| SIZE, |r| ELEMENT) any more')
+    size_e, elem_e = (re.sub(r'^\s*\|r\|\s*', '', a).strip() for a in args)
+    rv = u.src(LIB).cut_fn('read_vec')['body']
+    if 'get_size(self)' not in rv or 'get_element(self)' not in rv:
+        raise CutError('ClassRead::read_vec no longer has the shape get_size(self) / get_element(self)')
+    rv = rv.replace('get_size(self)', '{ let r = &mut *reader; ' + size_e + ' }').replace('get_element(self)', '{ let r = &mut *reader; ' + elem_e + ' }')
+    rv = re.sub(r'for _ in 0\.\.size', 'for _i in iter: 0..size', rv)
+    rv = re.sub(r'\bOk\(vec\)', 'Ok::<Vec<_>, VErr>(vec)', rv)
+    rv = ' '.join(rv.split())      # one line: the arm keeps its line count
+    u.drop('reader.read_vec(|r| SIZE, |r| ELEMENT) beta-reduced: the body of ClassRead::read_vec (duke/src/lib.rs) with get_size(self) / get_element(self) replaced by the closure bodies, r bound to the reader')
+    return body[:m.start()] + '(|| -> Result<Vec<_>, VErr> ' + rv + ')()' if False else body[:m.start()] + '{ let res_: Result<Vec<_>, VErr> = ' + rv + '; res_ }' + body[cl + 1:]
 
 
 def build(u):
@@ -170,13 +219,26 @@ def build(u):
                          f'res matches Ok(v) ==> v.log().len() == visitor_in.log().len() + 1 && v.log().subrange(0, visitor_in.log().len() as int) == visitor_in.log() '
                          f'&& ({{ let a = v.log().last(); a is Unknown }})'),
                        C(f'C01.arm.{lv}.unknown.consumes-exactly-length-bytes', f'res.is_ok() ==> final(reader).pos() == {p0} + length as int')]
+            elif key in VEC:
+                evc, cw, ew, elem = VEC[key]
+                body = beta_read_vec(u, body)
+                idx = 'u16_at' if cw == 2 else 'u8_at'
+                n = f'{idx}({d0}, {p0})'
+                el = elem.replace('(d,', f'({d0},').replace(' q)', f' {p0} + {cw} + {ew} * k)')
+                ens = [C(f'C01.arm.{lv}.{name}.delivers-one-event-with-exactly-the-listed-entries-in-order',
+                         f'res matches Ok(x) ==> x.log().len() == visitor_in.log().len() + 1 && x.log().subrange(0, visitor_in.log().len() as int) == visitor_in.log() '
+                         f'&& (x.log().last() matches {evc}(v) && v.len() == {n} && (forall|k: int| 0 <= k < v.len() ==> #[trigger] {el.replace("v[k]", "v[k]")}))'),
+                       C(f'C01.arm.{lv}.{name}.consumes-count-and-entries', f'res.is_ok() ==> final(reader).pos() == {p0} + {cw} + {ew} * {n}')]
+                vec_loop = dict(invariant=[C(f'C01.arm.{lv}.{name}.inv', f'reader.data() == {d0} && 0 <= {p0} && size as int == {n} && vec@.len() == iter.index@ && reader.pos() == {p0} + {cw} + {ew} * iter.index@ '
+                                                                        f'&& (forall|k: int| 0 <= k < iter.index@ ==> #[trigger] {el.replace("v[k]", "vec@[k]")})')])
             else:
-                continue    # arms with closures (read_vec), Code, Record, Module, BootstrapMethods, flags: not in this unit
+                continue    # Code, Record, Module, BootstrapMethods, InnerClasses, MethodParameters, flags: not in this unit
             fn = f'arm_{lv}_{name if name != "_" else "unknown"}'
+            extra = dict(loops={0: vec_loop}) if key in VEC else {}
             u.fn(R, f'{FN_OF[lv]}::{fn}', ret='res', canary=first,
                  synth=dict(sig=f'pub fn {fn}<V: {trait}, Rd: ClassRead>(reader: &mut Rd, pool: &PoolRead, visitor_in: V, length: u32, attribute_name: &JavaString) -> Result<V>',
                             body='{ let mut ' + var + ' = visitor_in; ' + body + '; Ok(' + var + ') }', line=line),
-                 requires=[f'0 <= {p0}'],
+                 requires=[f'0 <= {p0}'], **extra,
                  opt_rewrites=[(r'pool\.get_optional\(([^,]+),\s*PoolRead::get_method_name_and_type\)', r'pool.get_optional_method_name_and_type(\1)')],
                  ensures=ens + [C(f'C01.arm.{lv}.{name if name != "_" else "unknown"}.data-untouched', f'final(reader).data() == {d0}')])
             first = False
